@@ -1208,3 +1208,83 @@ def iso_base():
         P("dis-ok-big", SJ(3) + JJ(3) + [ld("x"), ld("y")], [st("x", 1), st("y", 1, "rel")], [ld("y", "acq"), fadd("x", 10)], CS("m", ld("x"))),
     ]
     return [normalize(p) for p in A], [normalize(p) for p in B]
+
+
+# ============================================================================================
+# Exhaustive small-scope families: ALL programs over a small alphabet (up to thread / location symmetry)
+# ============================================================================================
+def _assign_values(threads):
+    """give every store / swap a distinct value per location (1, 2, ...) in thread order"""
+    nxt = {}
+    out = []
+    for th in threads:
+        t = []
+        for i in th:
+            i = dict(i)
+            if i["op"] in ("st", "rmw", "send"):
+                k = i["o"]
+                nxt[k] = nxt.get(k, 0) + 1
+                i["v"] = nxt[k]
+            t.append(i)
+        out.append(t)
+    return out
+
+
+def _canon_threads(threads):
+    """canonical form under thread permutation and x<->y renaming (values ignored)"""
+    def key(ths, ren):
+        return tuple(sorted(tuple((i["op"], ren.get(i["o"], i["o"]), i["ord"], i["k"], i.get("o2", "")) for i in th) for th in ths))
+    return min(key(threads, {}), key(threads, {"x": "y", "y": "x"}))
+
+
+def exhaustive_atomics(nthreads=2, nops=2):
+    """all programs: nthreads spawned threads x exactly nops operations each over
+    {ld, st, swap, fence} x {x, y} x orderings; main joins and reads both locations"""
+    ops = []
+    for x in ("x", "y"):
+        ops += [ld(x, "rlx"), ld(x, "acq"), st(x, 0, "rlx"), st(x, 0, "rel"), swap(x, 0, "rlx"), swap(x, 0, "acqrel")]
+    ops += [fence("acqrel"), fence("sc")]
+    seen, out = set(), []
+    per_thread = list(itertools.product(ops, repeat=nops))
+    for combo in itertools.product(per_thread, repeat=nthreads):
+        threads = [list(c) for c in combo]
+        if all(i["op"] == "fence" for th in threads for i in th):
+            continue
+        # a fence first or last in a thread orders nothing: skip the redundant variants
+        if any(th[0]["op"] == "fence" or th[-1]["op"] == "fence" for th in threads if len(th) >= 2):
+            continue
+        locs = {i["o"] for th in threads for i in th if i["o"]}
+        if locs == {"y"}:
+            continue
+        k = _canon_threads(threads)
+        if k in seen:
+            continue
+        seen.add(k)
+        p = wrap(_assign_values(threads), sorted(locs), name="ex", tags=["litmus", "exhaustive"])
+        out.append(p)
+    return out
+
+
+def exhaustive_sync():
+    """all programs: 2 spawned threads x 2 blocks each over SeqCst accesses to x, critical sections on m,
+    try_lock sections, channel sends; main receives what was sent, joins and reads x"""
+    def blocks():
+        return [[ld("x", "sc")], [st("x", 0, "sc")], [swap("x", 0, "sc")],
+                CS("m", ld("x", "sc")), CS("m", st("x", 0, "sc")),
+                [L("trylock", "m"), br(0, 1, 2), st("x", 0, "sc"), L("unlock", "m")],
+                [L("send", "ch", v=0)], [L("read", "l"), ld("x", "sc"), L("unlockr", "l")], [L("write", "l"), st("x", 0, "sc"), L("unlockw", "l")]]
+    B = blocks()
+    seen, out = set(), []
+    for a1, a2, b1, b2 in itertools.product(range(len(B)), repeat=4):
+        ta = [dict(i) for i in blocks()[a1] + blocks()[a2]]
+        tb = [dict(i) for i in blocks()[b1] + blocks()[b2]]
+        k = _canon_threads([ta, tb])
+        if k in seen:
+            continue
+        seen.add(k)
+        threads = _assign_values([ta, tb])
+        nsend = sum(1 for th in threads for i in th if i["op"] == "send")
+        main = [spawn(2), spawn(3)] + [L("recv", "ch")] * nsend + [join(2), join(3)] + ([L("droprx", "ch")] if nsend else []) + [ld("x", "sc")]
+        p = {"threads": [main] + threads, "name": "exs", "tags": ["sync", "exhaustive"]}
+        out.append(fix_br(p))
+    return out
